@@ -65,6 +65,8 @@ def runMon (f : List String) : String :=
   | some "dr" => monDR c a
   | some "conv" => Conv.monitor pid c a
   | some "rt" => Codec.monitorRT c a
+  | some "parse" => Codec.monitorParse c a
+  | some "cconv" => ClientGlue.monitor pid c a
   | _ => "ok"
 
 def runCase (line : String) : String :=
